@@ -33,4 +33,15 @@ func (ra *ResponseAdaptor) Handle(ctx *context.Context) (result string)
   modifies gResp
   ensures replaced-body-is-well-framed: result == "" && gResp != 0 && len(ra.spec.Body) != 0 ==> wellFramed(ptr(gResp, "*httpprot.Response"))
   ghost at call[1] GetInputResponse: gResp := ifaceVal(resp)
+
+// ---- C13: what Validate accepts, Init can start ----
+pred specOK(s *Spec) := (s.Decompress == "" || s.Decompress == "gzip") && (s.Compress == "" || s.Compress == "gzip") && !(s.Compress != "" && s.Decompress != "") && !(s.Body != "" && s.Decompress != "")
+
+func (spec *Spec) Validate() (err error)
+  requires spec != nil
+  ensures accepted-specs-can-start: err == nil ==> specOK(spec)
+
+func (ra *ResponseAdaptor) Init()
+  requires ra != nil && ra.spec != nil
+  requires validated: specOK(ra.spec)
 @*/
